@@ -387,7 +387,7 @@ def main(argv=None) -> int:
     for r in ded:
         need = getattr(next((c for c in prop.contracts if c.qualname == r['contract']), None), 'required_covers', ())
         miss = [c for c in need if c not in r['covers']]
-        if miss and not r.get('error') and not r['out_of_subset']:
+        if miss and not r.get('error') and not r['out_of_subset'] and all(o['status'] in ('discharged', 'known-finding') for o in r['obligations']):
             lines.append(f"CHECKER-ERROR contract {r['contract']}: cover(s) never reached: {miss}")
             checker_errors.append('cover')
 
